@@ -768,10 +768,24 @@ func (c *SpecCtx) evalCall(x *ECall) (Val, types.Type) {
 					}
 				}
 			}
-			lc = lastCall{sig: sig, res: arb}
 			if x.Fun == "laststr" {
-				return e.freshConst("nocall.str", SStr), types.Typ[types.String]
+				fresh := e.freshConst("nocall.str", SStr)
+				if ok && lc.blk != nil && at != nil && cfgReaches(lc.blk, at) && lc.blk != at {
+					if passed, okr := c.f.outReach[lc.blk.Index]; okr {
+						idx := 0
+						if len(x.Args) > 1 {
+							if n, okn := x.Args[1].(*ENum); okn {
+								fmt.Sscanf(n.V, "%d", &idx)
+							}
+						}
+						if idx < len(lc.str) && lc.str[idx].S != "" {
+							return tIte(passed, lc.str[idx], fresh), types.Typ[types.String]
+						}
+					}
+				}
+				return fresh, types.Typ[types.String]
 			}
+			lc = lastCall{sig: sig, res: arb}
 		}
 		idx := 0
 		if len(x.Args) > 1 {
